@@ -7,7 +7,7 @@ TECH = "contract-based deductive verification: Verus (SMT/Z3) on handler bodies 
 NOTE = ("Assumes: extraction rules R1-R13 (DESIGN 3.3) are faithful; sequential cell shims for atomics/ArcSwap/RwLock; user closures deterministic and non-reentrant; "
         "peers spec-conformant; the assume/guarantee meta-argument of DESIGN 2.7; partial correctness; Verus/Z3. ")
 NOTE_T = ("Assumes: extraction rules (DESIGN 3.3) are faithful; sequentially consistent interleaving at shared-access granularity (memory orderings ignored), fetch_* / fetch_update / rcu atomic; "
-          "`interfere_raw`/`call_raw` = any number of steps of the other threads preserving the invariant and the rely; that every thread's checked guarantee implies the others' rely is the rely/guarantee meta-argument (DESIGN 2.8), not machine-checked; "
+          "`interfere_raw`/`call_raw` = any number of steps of the other threads preserving the invariant and the rely; that every thread's checked guarantee implies the others' rely is the rely/guarantee meta-argument (DESIGN 2.7), not machine-checked; "
           "one member = one thread that does not overlap its own deliveries; passive sink; partial correctness; Verus/Z3. ")
 CLAIMS = {
     # id: (operators covered, text)
